@@ -471,12 +471,12 @@ func checkState(dir string) (v Verdict) {
 // ---------------------------------------------------------------------------------------
 
 func run(r *vrt.Run) {
-	r.Rule("a case = (generated chain + freeze schedule, crash position inside a Freeze() cycle, crash-state variant); chains: 20-200 canonical blocks with 0-3 signed txs and receipts, 0-3 side branches of depth 1-15 at random fork points, 1-3 cycles with the finalized marker moving forward and the head advancing; positions: mutating file syscalls and key-value operations between FREEZE-BEGIN and FREEZE-END (quick: sampled, thorough: all); variants: kill, power-loss cuts x key-value prefixes. non-trivial signature = (model, event kind, cycle index, blocks frozen at reopen: none/partial/all, canonical data in both stores?)")
+	r.Rule("a case = (generated chain + freeze schedule, crash position inside a Freeze() cycle, crash-state variant); chains: 20-200 canonical blocks with 0-3 signed txs and receipts, 0-3 side branches of depth 1-15 at random fork points, 1-3 cycles with the finalized marker moving forward and the head advancing; positions: mutating file syscalls and key-value operations between FREEZE-BEGIN and FREEZE-END (quick: sampled, thorough: a larger sample, all if few); variants: kill, power-loss cuts x key-value prefixes. non-trivial signature = (model, event kind, cycle index, blocks frozen at reopen: none/partial/all, canonical data in both stores?)")
 	if _, err := exec.LookPath("strace"); err != nil {
 		r.Inconclusive("strace not available: %v", err)
 		return
 	}
-	nh := r.N(6, 250)
+	nh := r.N(6, 48)
 	vrt.Par(nh, 0, func(hi int) {
 		p := genPlan(r, hi)
 		base := filepath.Join(r.Scratch, fmt.Sprintf("h%d", hi))
@@ -489,7 +489,7 @@ func run(r *vrt.Run) {
 		r.Case("history %d: %s", hi, pb)
 		spec := &crashrun.Spec{R: r, Hi: hi, Base: base, Root: root, Marks: marks,
 			WorkloadMode: "c25-workload", WorkloadEnv: []string{"C25_ROOT=" + root, "C25_MARKS=" + marks, "C25_PLAN=" + planPath, "C25_OPLOG=" + oplog},
-			ReopenMode: "c25-reopen", ListEnv: "C25_LIST", PosPer: r.N(40, 0), NRandom: r.N(1, 6), Rng: r.Rand("hist", hi),
+			ReopenMode: "c25-reopen", ListEnv: "C25_LIST", PosPer: r.N(40, 300), NRandom: r.N(1, 3), Rng: r.Rand("hist", hi),
 			Window: func(m string, in bool) bool {
 				if strings.HasPrefix(m, "FREEZE-BEGIN") {
 					return true
